@@ -23,6 +23,7 @@ mod scale;
 mod search;
 mod seqread;
 mod sut;
+mod undo_w;
 mod updlog;
 
 use json::J;
@@ -157,6 +158,11 @@ fn cmd_search(args: &[String]) -> i32 {
         let search = if evt::is_target(&target) { evt::cmd_search } else { stk::cmd_search };
         return search(&target, universe, jobs, deadline);
     }
+    // undo manager as a step-exact undo / redo (undo_w.rs: undo)
+    if undo_w::is_target(&target) {
+        let deadline = max_seconds.map(|t| Instant::now() + Duration::from_secs_f64(t.max(0.0)));
+        return undo_w::cmd_search(&target, universe, jobs, deadline);
+    }
     // y-sync handshake, document half (hs.rs: handshake)
     if hs::is_target(&target) {
         let deadline = max_seconds.map(|t| Instant::now() + Duration::from_secs_f64(t.max(0.0)));
@@ -177,7 +183,7 @@ fn cmd_search(args: &[String]) -> i32 {
         die(&format!("--universe must be in 1..={}", MAX_UNIVERSE));
     }
     let groups = search::groups_for(&target)
-        .unwrap_or_else(|| die(&format!("unknown target {:?}; targets: {} | {} | {} | {} | {} | {} | {} | {} | {} | {} | {}", target, hs::TARGETS, seqread::TARGETS, lww::TARGETS,search::TARGETS, ext::TARGETS, evt::TARGETS, stk::TARGETS, mapread::TARGETS, quote::TARGETS, updlog::TARGETS, converge::TARGETS)));
+        .unwrap_or_else(|| die(&format!("unknown target {:?}; targets: {} | {} | {} | {} | {} | {} | {} | {} | {} | {} | {} | {}", target, undo_w::TARGETS, hs::TARGETS, seqread::TARGETS, lww::TARGETS,search::TARGETS, ext::TARGETS, evt::TARGETS, stk::TARGETS, mapread::TARGETS, quote::TARGETS, updlog::TARGETS, converge::TARGETS)));
     let mut s = Search {
         n: universe,
         seed,
@@ -272,6 +278,9 @@ fn cmd_replay(args: &[String]) -> i32 {
     if evt::owns(&j) || stk::owns(&j) {
         let replay =if evt::owns(&j) { evt::cmd_replay } else { stk::cmd_replay };
         return replay(&j).unwrap_or_else(|e| die(&format!("replay: {}", e)));
+    }
+    if undo_w::owns(&j) {
+        return undo_w::cmd_replay(&j).unwrap_or_else(|e| die(&format!("replay: {}", e)));
     }
     if hs::owns(&j) {
         return hs::cmd_replay(&j).unwrap_or_else(|e| die(&format!("replay: {}", e)));
